@@ -84,6 +84,7 @@ func justFor(ph gpbft.Phase, round uint64) (gpbft.Phase, uint64, bool) {
 //	W.<inst>.<phase>.<round>.<val>            B's own vote, certificate genuinely signed by too few members
 //	M.<inst>.<phase>.<round>.<val>.<jval>     B's own vote, observed certificate of the right step for another value
 //	R.<msg>.<sender>                          observed message <msg> replayed under another sender id
+//	D.<inst>.<phase>.<round>.<val>            B's own DECIDE stamped with the non-zero round of the genuine COMMIT quorum it carries
 func (s *System) forgeMenu(target int) []string {
 	if s.w.sc.Byz < 0 || s.hosts[target] == nil || s.hosts[target].finished {
 		return nil
@@ -100,17 +101,18 @@ func (s *System) forgeMenu(target int) []string {
 	}
 	steps := []step{{gpbft.COMMIT_PHASE, pr.Round}, {gpbft.DECIDE_PHASE, pr.Round}}
 	if pr.Round+1 <= s.w.sc.MaxRound {
-		steps = append(steps, step{gpbft.PREPARE_PHASE, pr.Round + 1})
+		steps = append(steps, step{gpbft.PREPARE_PHASE, pr.Round + 1}, step{gpbft.CONVERGE_PHASE, pr.Round + 1})
 	}
 	for _, st := range steps {
 		for _, v := range forgeValues {
 			base := fmt.Sprintf("%d.%d.%d.%s", inst, st.ph, st.r, v)
 			for i := range s.w.sc.Powers {
-				if i != target && i != s.w.sc.Byz && st.ph != gpbft.PREPARE_PHASE {
+				if i != target && i != s.w.sc.Byz && st.ph != gpbft.PREPARE_PHASE && st.ph != gpbft.CONVERGE_PHASE {
 					out = append(out, "S."+base+"."+strconv.Itoa(i))
 				}
 			}
 			out = append(out, "J."+base, "W."+base)
+
 			jp, jr, _ := justFor(st.ph, st.r)
 			seen := map[string]bool{}
 			for _, r := range s.msgs {
@@ -123,6 +125,15 @@ func (s *System) forgeMenu(target int) []string {
 					seen[jv] = true
 					out = append(out, "M."+base+"."+strconv.Itoa(r.id))
 				}
+			}
+		}
+	}
+	// a DECIDE stamped with the non-zero round of the genuine COMMIT quorum it carries, for every value and round for
+	// which such a quorum can be assembled from observed votes
+	for r := uint64(1); r <= pr.Round; r++ {
+		for _, v := range []string{"=a", "=aa", "=f", "="} {
+			if _, _, ok := s.justifiable(inst, jspec{gpbft.COMMIT_PHASE, r, v}); ok {
+				out = append(out, fmt.Sprintf("D.%d.%d.%d.%s", inst, gpbft.DECIDE_PHASE, r, v))
 			}
 		}
 	}
@@ -180,6 +191,12 @@ func (s *System) forgeBuild(spec string) (*gpbft.GMessage, error) {
 		return nil, err
 	}
 	m := &gpbft.GMessage{Sender: actor(s.w.sc.Byz), Vote: payload, Signature: sig}
+	if ph == gpbft.CONVERGE_PHASE {
+		beacon := []byte(s.w.sc.Beacon + strconv.FormatUint(inst, 10))
+		if m.Ticket, err = s.backend.Sign(ctx, bpk, gpbft.VerifVRFInput(beacon, inst, round, networkName)); err != nil {
+			return nil, err
+		}
+	}
 	jp, jr, _ := justFor(ph, round)
 	jpayload := gpbft.Payload{Instance: inst, Round: jr, Phase: jp, SupplementalData: s.w.supp, Value: val}
 	pt := s.w.newPowerTable()
@@ -196,6 +213,17 @@ func (s *System) forgeBuild(spec string) (*gpbft.GMessage, error) {
 		return &gpbft.Justification{Vote: jpayload, Signers: allSigners(), Signature: []byte("junk-aggregate-" + spec)}
 	}
 	switch f[0] {
+	case "D":
+		// genuine COMMIT quorum of round jr for the value (only if one can be assembled), DECIDE stamped with round jr
+		j, err := s.buildJustification(inst, jspec{jp, jr, f[4]})
+		if err != nil {
+			return nil, err
+		}
+		m.Vote.Round = jr
+		if m.Signature, err = s.backend.Sign(ctx, bpk, m.Vote.MarshalForSigning(networkName)); err != nil {
+			return nil, err
+		}
+		m.Justification = j
 	case "S":
 		if len(f) != 6 {
 			return nil, fmt.Errorf("bad forge spec %q", spec)
